@@ -14,7 +14,7 @@ EXTENDS Emit
 Grid == IF Thorough THEN Shapes(4, 3) \cup Shapes(6, 2) ELSE Shapes(3, 2) \cup Shapes(2, 3) \cup {<<2, 1, 2, 1, 2>>, <<1, 1, 1, 1, 1, 2>>, <<3, 1, 2, 2>>}
 GridSeq == SetToSeq(Grid)
 
-Ks == <<QI(2), QI(-1), Half, Zero, Q(-3, 2)>>
+Ks == <<QI(2), QI(-1), Half, Zero, Q(-3, 2), One>>        \* 1 and 0: identity / annihilating parameters invite shortcuts
 PowKs == <<Two, QI(3), QI(-1), Half, Zero, One, QI(-2)>>
 
 UnaryDescs ==
